@@ -338,9 +338,9 @@ theorem coords_origin_is_centroid {K : Type} [Field K] (mask : Arr Bool) (hc : (
       (if mask.get i j then zCC mask (zShift (K := K) mask) j else 0)) = 0 := by
   obtain ⟨m0, m1, m2⟩ := maskMoments_cast (K := K) mask
   have hr : ∀ i : Int, zRR mask (zShift (K := K) mask) i = (i : K) - ((maskMoments mask).2.1 : K) / ((maskMoments mask).1 : K) := by
-    intro i; unfold zRR zShift meshCoord; simp only; ring
+    intro i; unfold zRR zShift meshCoord Gen.meshCoord; simp only; ring
   have hcc : ∀ j : Int, zCC mask (zShift (K := K) mask) j = (j : K) - ((maskMoments mask).2.2 : K) / ((maskMoments mask).1 : K) := by
-    intro j; unfold zCC zShift meshCoord; simp only; ring
+    intro j; unfold zCC zShift meshCoord Gen.meshCoord; simp only; ring
   refine ⟨hr, hcc, ?_, ?_⟩
   · have e : ∀ i ∈ range mask.s0.toNat, ∀ j ∈ range mask.s1.toNat,
         (if mask.get i j then zRR mask (zShift (K := K) mask) i else 0)
